@@ -45,6 +45,7 @@ func TestExamples(t *testing.T) {
 		{"aa:b", seqVal(lit("a"), sE, lit("b"))}, {"aa:e", seqVal(er("aa:x"))}, {"aa:c", seqVal(rf("aa", "c"))},
 		{"aa:p", seqVal(lit("pre-"), rf("aa", "n"))}, {"aa:$x", seqVal(lit("reached"))}, {"aa:empty", seqVal()},
 		{"aa:m", Val{K: "map", Keys: []string{"k0"}, Items: []Val{seqVal(lit("v"), sE)}}},
+		{"aa:m2", Val{K: "map", Keys: []string{"k0", "k1"}, Items: []Val{seqVal(rf("aa", "x"), rf("aa", "x")), seqVal(lit("a"), er("aa:x"))}}},
 	}
 	nested := Seg{K: "ref", Scheme: "aa", Name: []Seg{rf("aa", "k")}}
 	dollar := Seg{K: "ref", Scheme: "aa", Name: []Seg{sD, lit("x")}}
@@ -73,6 +74,12 @@ func TestExamples(t *testing.T) {
 		{name: "empty value", field: "s1", seq: []Seg{rf("aa", "empty")}, typed: nil, str: ""},
 		{name: "map value into a string field: original text, unescaped", field: "s1", seq: []Seg{rf("aa", "m")},
 			typed: map[string]any{"k0": "v$"}, str: `{k0: "v$"}`},
+		// repaired finding F-C12-a: the escaped occurrence of a reference that is also used unescaped stays verbatim
+		{name: "${aa:x} $${aa:x} -> X ${aa:x}", field: "s1", seq: []Seg{rf("aa", "x"), lit(" "), er("aa:x")}, typed: "X ${aa:x}", str: "X ${aa:x}"},
+		{name: "${aa:empty}$${aa:empty}-$${aa:x}: an empty value leaves no stray $", field: "s1", seq: []Seg{rf("aa", "empty"), er("aa:empty"), lit("-"), er("aa:x")},
+			typed: "${aa:empty}-${aa:x}", str: "${aa:empty}-${aa:x}"},
+		{name: "map value whose text has the same reference escaped", field: "s1", seq: []Seg{rf("aa", "m2")},
+			typed: map[string]any{"k0": "XX", "k1": "a${aa:x}"}, str: `{k0: "XX", k1: "a${aa:x}"}`},
 		{name: "cycle", field: "s1", seq: []Seg{rf("aa", "c")}, wantErr: true},
 		{name: "embedded cycle", field: "s1", seq: []Seg{lit("a"), rf("aa", "c")}, wantErr: true},
 		{name: "$ in name", field: "s1", seq: []Seg{dollar}, wantErr: true},
